@@ -22,7 +22,8 @@ EXPLANATION = (
     "non-emptiness, no early exit, no level limit) and every branch that has _set_context receives the enclosing "
     "context, the only early return being for an empty context; no method other than _set_context writes (update, setdefault, "
     "update_recursively, update_nested) into an object that still shares dictionaries with a stored static-context field -- an alias "
-    "or a shallow copy handed to a recursive merge.  Does not decide the "
+    "or a shallow copy handed to a recursive merge; (g) a sequence constructor that builds an inner sequence from self._data_seq after "
+    "the context was threaded threads the whole sequence again afterwards.  Does not decide the "
     "concrete context seen for a concrete tree.")
 RULES = {
     "C13-a": "FOLD: LenaSequence._set_context threads the context forwards through self._seq, set before get",
@@ -30,6 +31,8 @@ RULES = {
     "C13-c": "FRESH: a _set_context consumer keeps only immutable derivations or deep copies of its argument",
     "C13-d": "TYPESTATE: exits that leave _static_context unset store the caught LenaKeyError in _exc; getters re-raise it",
     "C13-e": "no leak: static-context fields reach flow values only in UpdateContextFromStatic.run through deepcopy",
+    "C13-g": "RE-THREADING: a sequence constructor that builds an inner sequence from its data elements only (which omits the "
+             "context-setting elements) after the context was threaded threads the context of the whole sequence again afterwards",
     "C13-f": "ROUTING: every branch of a split that has a context takes part in the intersection / receives the enclosing "
              "context, the only test on that path being the hasattr() test of the branch",
 }
@@ -579,8 +582,59 @@ def check_split_routing(ctx):
                   construct="set-early-return")
 
 
+# -- C13-g ---------------------------------------------------------------------
+
+def check_rethreading(ctx):
+    """LenaSequence.__init__ threads the static context through *all* its arguments (self._seq) and leaves the data elements in
+    self._data_seq.  Constructing another sequence from elements of self._data_seq runs LenaSequence.__init__ -- hence
+    _set_context({}) -- over those very element objects again, this time without the SetContext elements that stood between
+    them: what they saw from the enclosing sequence is overwritten by a context that ignores preceding context elements.
+    The whole sequence must therefore be threaded once more after the last such construction."""
+    res = ctx.res
+    seq_classes = {"lena.core.sequence.Sequence", "lena.core.fill_seq.FillSeq", "lena.core.fill_compute_seq.FillComputeSeq",
+                   "lena.core.fill_request_seq.FillRequestSeq", "lena.core.source.Source"}
+    n = 0
+    for mod, cls in ctx.tree.classes():
+        if not mod.name.startswith("lena.core."):
+            continue
+        t = res.class_target(mod.name, cls.name)
+        if not any(c.name == "lena.core.lena_sequence.LenaSequence" for c in res.mro(t)[1:]):
+            continue
+        init = methods(cls).get("__init__")
+        if init is None:
+            continue
+        n += 1
+        for p in P.paths_of(init):
+            if p.end == "raise":
+                continue
+            threads = []
+            partial = []
+            for i, c in p.calls():
+                if isinstance(c.func, ast.Attribute) and c.func.attr == "__init__" and isinstance(c.func.value, ast.Call) \
+                        and A.call_name(c.func.value) == "super":
+                    threads.append(i)
+                elif A.src(c.func) == "self._set_context":
+                    threads.append(i)
+                elif res.call_canon(c) in seq_classes and any(isinstance(x, ast.Attribute) and A.is_self_attr(x, "_data_seq")
+                                                              for a in c.args for x in ast.walk(a)):
+                    partial.append((i, c))
+            if not partial:
+                continue
+            last = max(i for i, _ in partial)
+            ok = any(t2 > last for t2 in threads)
+            ctx.check("C13-g", ok, partial[-1][1], "%s.__init__ builds `%s` from self._data_seq after the static context was threaded and does "
+                      "not thread it again: the data elements are handed a context computed without the context elements (SetContext) "
+                      "of this sequence, e.g. %s(first, Sequence(SetContext('b', 2)), SetContext('b', 3), Write('{{b}}')) leaves the "
+                      "Write with b = 2" % (cls.name, A.short(partial[-1][1], 50), cls.name),
+                      detail="%s.__init__ re-threads the context after building a sequence of data elements" % cls.name,
+                      construct="rethread:%s" % cls.name, path=p)
+            break
+    ctx.instances_floor("C13-g", n, 5, "constructors of LenaSequence subclasses in lena.core")
+
+
 def check(ctx):
     check_fold(ctx)
+    check_rethreading(ctx)
     check_split_routing(ctx)
     check_getters(ctx)
     check_consumers(ctx)
@@ -589,6 +643,7 @@ def check(ctx):
 
 
 VARIANTS = [
+    M("source-tail-not-rethreaded", "lena/core/source.py", "            try:\n                self._set_context({})\n            except LenaKeyError:\n                pass\n        else:\n            self._tail = ()", "        else:\n            self._tail = ()", ["C13-g"]),
     M("makefilename-shallow-merge", "lena/output/make_filename.py", "                full_context = deepcopy(self._context)\n                # runtime context takes precedence over the static one\n                full_context.update(context)", "                full_context = self._context.copy()\n                lena.context.update_recursively(full_context, context)", ["C13-e"]),
     M("makefilename-alias-update", "lena/output/make_filename.py", "                full_context = deepcopy(self._context)\n", "                full_context = self._context\n", ["C13-e"]),
     TW("makefilename-deep-merge", "lena/output/make_filename.py", "                full_context.update(context)", "                lena.context.update_recursively(full_context, deepcopy(context))"),
